@@ -3,12 +3,12 @@ rc_target("c20_threads", flavour="sched", wrap=True)
 rc_target("c20_race", flavour="tsan", race_oracle=True)
 plan("C20", [T("c20_threads", 3000, 25000), T("c20_race", 2500, 20000, 3, 8)], min_nt=100,
      rule="thread trees x schedules under the controlled scheduler with a virtual clock",
-     technique="property-based testing over (thread tree, schedule) pairs: controlled scheduler, event-log oracle, join accounting in the scheduler's thread table",
+     technique="property-based testing over (thread tree, schedule) pairs: controlled scheduler, event-log oracle, join accounting in the scheduler's thread table + the same kind of generated program on free-running threads under ThreadSanitizer (race report or functional oracle)",
      level_text="Generated search over launch/finish/join interleavings: the library's real thread wrapper, at-exit chain and managed-thread "
                 "bookkeeping run on real pthreads serialised by a scheduler that decides at every lock / condition-variable / create / join / "
                 "sleep operation. Oracle: function once, at-exit callbacks on the thread, once, in reverse order, before join returns; after "
                 "join_all_managed every managed thread is finished and really joined exactly once, count 0, no leak, no deadlock/hang. "
-                "Sequential consistency only; sampling, not proof.",
+                "Sequential consistency only; sampling, not proof. Second engine (*_race target): real parallel threads under ThreadSanitizer, whose happens-before analysis sees unsynchronised accesses that the controlled scheduler cannot (a section without lock calls has no decision point); a report or a functional failure there is a violation, replayed 12 times and reported when it shows twice.",
      assumptions=["sequential consistency; preemption only at intercepted operations (DESIGN 4.4)",
                   "at-exit callbacks do not register further callbacks (unspecified by the library)",
                   "only main and managed threads launch managed threads"])
